@@ -2,17 +2,98 @@
 package main
 
 import (
+	"fmt"
 	"strings"
 
 	"tkestack.io/galaxy/verifsim/core"
 	"tkestack.io/galaxy/verifsim/harness"
 )
 
+// faultPlan is one point of a fault enumeration: the k-th matching API call of galaxy-ipam fails (mode 1), or
+// the process dies right before (mode 2) / right after (mode 3) it.
+type faultPlan struct {
+	mode int
+	k    int
+}
+
 func run(prop, tier string, c *core.Choices, trace bool) *harness.RunResult {
+	if prop == "C05" || prop == "C08" {
+		return runEnum(prop, tier, c, trace)
+	}
+	return runOne(prop, tier, c, trace, nil)
+}
+
+// runEnum: fault enumeration. The history is fixed by the recorded choices of a fault-free baseline run; it is
+// then re-executed once per (injection point, mode). A failing sub-run is reported as the choice list
+// [mode, k, baseline choices...], which replays (and shrinks) like any other run.
+func runEnum(prop, tier string, c *core.Choices, trace bool) *harness.RunResult {
+	modes := []int{1, 2, 3}
+	if prop == "C08" {
+		modes = []int{1}
+	}
+	if c.Replaying {
+		mode := c.Choose(4)
+		k := c.Choose(1 << 20)
+		inner := core.ReplayChoices(c.Seed, append([]uint32(nil), c.Rest()...))
+		var plan *faultPlan
+		if mode != 0 {
+			plan = &faultPlan{mode: mode, k: k}
+		}
+		res := runOne(prop, tier, inner, trace, plan)
+		c.Rec = append([]uint32{uint32(mode), uint32(k)}, inner.Rec...)
+		return res
+	}
+	base := core.NewChoices(c.Seed)
+	agg := runOne(prop, tier, base, false, nil)
+	agg.SubRuns = 1
+	if agg.Viol != nil || agg.Infra != "" {
+		c.Rec = append([]uint32{0, 0}, base.Rec...)
+		return agg
+	}
+	m := agg.Stats["enum.points"]
+	baseSig := agg.Sig
+	if agg.Nontrivial {
+		agg.ExtraSigs = append(agg.ExtraSigs, baseSig)
+	}
+	agg.Nontrivial = false
+	maxPoints := 400
+	if tier == "thorough" {
+		maxPoints = 4000
+	}
+	if m > maxPoints {
+		agg.Stats["enum.truncated"]++
+		m = maxPoints
+	}
+	for k := 1; k <= m; k++ {
+		for _, mode := range modes {
+			inner := core.ReplayChoices(c.Seed, base.Rec)
+			r := runOne(prop, tier, inner, false, &faultPlan{mode: mode, k: k})
+			agg.SubRuns++
+			agg.Steps += r.Steps
+			agg.SimNanos += r.SimNanos
+			for kk, v := range r.Stats {
+				if kk != "enum.points" {
+					agg.Stats[kk] += v
+				}
+			}
+			agg.States = append(agg.States, r.States...)
+			agg.ExtraSigs = append(agg.ExtraSigs, fmt.Sprintf("%s|plan:%d@%d", baseSig, mode, k))
+			if r.Viol != nil || r.Infra != "" {
+				agg.Viol, agg.Key, agg.Infra = r.Viol, r.Key, r.Infra
+				c.Rec = append([]uint32{uint32(mode), uint32(k)}, base.Rec...)
+				return agg
+			}
+		}
+	}
+	return agg
+}
+
+func runOne(prop, tier string, c *core.Choices, trace bool, plan *faultPlan) *harness.RunResult {
 	s := core.NewSim(c)
 	s.TraceOn = trace
 	s.MaxSteps = 30000
 	w := newWorld(s, prop, tier)
+	w.plan = plan
 	s.W = w
 	w.startProcess()
 	s.Loop()
